@@ -89,8 +89,53 @@ def live_pump_check(seed, n_lines=300):
     return ok
 
 
+BIG = 0xFFFF * 16          # the largest image the 16-bit block counter can count
+
+
+def big_image(size, version="2.2"):
+    """A firmware update with an image at the limit of the block counter (handed to make_update as bytes; the
+    Intel HEX route is the same call after load_fw), then what the node sends: a config request, block requests
+    for the first and the last block, a set message.  Returns (did the update call return normally, list of
+    (line, exception name)) — judged on the real code only (the image is too large for the driver's wire)."""
+    from . import persist_util as pu
+    from .c09 import pack_words
+    gw = pu.make_gateway(version)
+    out = []
+    for line in ("1;255;0;0;17;2.2\n", "1;0;0;0;3;\n"):
+        gw.logic(line)
+    try:
+        gw.tasks.ota.make_update([1], 1, 1, bytes(size))
+        accepted = True
+    except Exception:  # noqa: BLE001   (a refused call is fine; C10 has the rule for it)
+        accepted = False
+    blocks = -(-size // 128) * 8
+    for line in (f"1;255;4;0;0;{pack_words(1, 0, 10, 0, 0)}\n", f"1;255;4;0;2;{pack_words(1, 1, 0)}\n",
+                 f"1;255;4;0;2;{pack_words(1, 1, min(blocks, 65536) - 1)}\n", "1;0;1;0;2;1\n",
+                 f"1;255;4;0;0;{pack_words(1, 1, min(blocks, 65535), 0, 0)}\n"):
+        try:
+            gw.logic(line)
+        except Exception as exc:  # noqa: BLE001
+            out.append((line.strip(), type(exc).__name__))
+    return accepted, out
+
+
+def big_image_part(res, tier):
+    sizes = [BIG - 128, BIG - 127, BIG - 112, BIG - 16, BIG - 1, BIG, BIG + 1, BIG + 16]
+    for size in (sizes if tier == "thorough" else [BIG - 128, BIG - 112, BIG, BIG + 16]):
+        accepted, raised = big_image(size)
+        res.evaluations += 1
+        res.count("largest-images:" + ("accepted" if accepted else "refused"))
+        if raised:
+            res.oracle_failures.append({
+                "key": {"kind": "raises-after-big-image", "exc": raised[0][1]},
+                "replay": {"op": "big-image", "size": size},
+                "what": f"an update with an image of {size} bytes ({'accepted' if accepted else 'refused'} by the call), "
+                        f"then {raised[0][0]!r} from the node: processing raised {raised[0][1]}"})
+
+
 def run(tier, seed, driver):
     res = gwfam.run_family("C01", tier, seed, driver, CFG, relevant, extra_oracle=probe_oracle)
+    big_image_part(res, tier)
     res.rule = ("histories over all versions and the base/TCP/MQTT kinds with 40% malformed next lines (random text, "
                 "truncated frames, 7-field frames, out-of-range headers, valid headers with arbitrary payloads, "
                 "exotic integer spellings) from states that include smart-sleep and OTA sessions, each followed by a "
@@ -108,4 +153,8 @@ def run(tier, seed, driver):
 
 
 def replay(payload):
+    if (payload.get("replay") or {}).get("op") == "big-image":
+        accepted, raised = big_image(payload["replay"]["size"])
+        print("update call returned normally:", accepted, " lines that raised:", raised)
+        return 1 if raised else 0
     return gwfam.replay_family("C01", payload)
